@@ -606,3 +606,19 @@ impl SimTy for ServRefV2 {
         AV::Service(self.0.principal.as_slice().to_vec())
     }
 }
+
+// ---------------------------------------------------------------- large type tables (C03), back-tracking shapes (C07)
+
+// more than 64 type-table entries in one message
+sim_struct!(Wide { w00: Option<u8>, w01: Vec<u16>, w02: Option<u32>, w03: Vec<u64>, w04: Option<i8>, w05: Vec<i16>, w06: Option<i32>, w07: Vec<i64>, w08: Option<f32>, w09: Vec<f64>, w10: Option<bool>, w11: Vec<String>, w12: Option<Nat>, w13: Vec<Int>, w14: Option<Principal>, w15: Vec<()>, w16: Option<Vec<u8>>, w17: Vec<Option<u16>>, w18: Option<Vec<u32>>, w19: Vec<Option<u64>>, w20: Option<Vec<i8>>, w21: Vec<Option<i16>>, w22: Option<Vec<i32>>, w23: Vec<Option<i64>>, w24: Option<Vec<f32>>, w25: Vec<Option<f64>>, w26: Option<Vec<bool>>, w27: Vec<Option<String>>, w28: Option<Vec<Nat>>, w29: Vec<Option<Int>>, w30: Option<(u8, u16)>, w31: Vec<(u32, u64)>, w32: Option<(i8, i16)>, w33: Vec<(i32, i64)>, w34: Option<(Nat, Int)>, w35: Vec<(String, bool)>, w36: Option<S1>, w37: Vec<E2>, w38: Option<Option<u8>>, w39: Vec<Vec<u16>> });
+
+// an option whose content fails to coerce, followed by data that is really decoded
+sim_struct!(BtA { a: Option<String>, b: Vec<u64>, z: Nat });
+sim_struct!(BtB { a: Option<u32>, b: Vec<u64>, z: Nat });
+sim_struct!(BtC { a: Option<Vec<Nat>>, b: Vec<String>, z: Int });
+sim_struct!(BtD { a: Option<BTreeMapSN>, b: Vec<String>, z: Int });
+pub type BTreeMapSN = std::collections::BTreeMap<String, Nat>;
+
+// a cheap wire value under opt against a wide expected record whose typed attempt is expensive
+sim_struct!(SmallCfg { schema_version: String });
+sim_struct!(WideCfg { configuration_option_number_00: Option<u64>, configuration_option_number_01: Option<u64>, configuration_option_number_02: Option<u64>, configuration_option_number_03: Option<u64>, configuration_option_number_04: Option<u64>, configuration_option_number_05: Option<u64>, configuration_option_number_06: Option<u64>, configuration_option_number_07: Option<u64>, configuration_option_number_08: Option<u64>, configuration_option_number_09: Option<u64>, configuration_option_number_10: Option<u64>, configuration_option_number_11: Option<u64>, configuration_option_number_12: Option<u64>, configuration_option_number_13: Option<u64>, configuration_option_number_14: Option<u64>, configuration_option_number_15: Option<u64>, configuration_option_number_16: Option<u64>, configuration_option_number_17: Option<u64>, configuration_option_number_18: Option<u64>, configuration_option_number_19: Option<u64>, configuration_option_number_20: Option<u64>, configuration_option_number_21: Option<u64>, configuration_option_number_22: Option<u64>, configuration_option_number_23: Option<u64>, configuration_option_number_24: Option<u64>, configuration_option_number_25: Option<u64>, configuration_option_number_26: Option<u64>, configuration_option_number_27: Option<u64>, configuration_option_number_28: Option<u64>, configuration_option_number_29: Option<u64>, configuration_option_number_30: Option<u64>, configuration_option_number_31: Option<u64>, configuration_option_number_32: Option<u64>, configuration_option_number_33: Option<u64>, configuration_option_number_34: Option<u64>, configuration_option_number_35: Option<u64>, configuration_option_number_36: Option<u64>, configuration_option_number_37: Option<u64>, configuration_option_number_38: Option<u64>, configuration_option_number_39: Option<u64>, configuration_option_number_40: Option<u64>, configuration_option_number_41: Option<u64>, configuration_option_number_42: Option<u64>, configuration_option_number_43: Option<u64>, configuration_option_number_44: Option<u64>, configuration_option_number_45: Option<u64>, configuration_option_number_46: Option<u64>, configuration_option_number_47: Option<u64>, configuration_option_number_48: Option<u64>, configuration_option_number_49: Option<u64>, configuration_option_number_50: Option<u64>, configuration_option_number_51: Option<u64>, configuration_option_number_52: Option<u64>, configuration_option_number_53: Option<u64>, configuration_option_number_54: Option<u64>, configuration_option_number_55: Option<u64>, configuration_option_number_56: Option<u64>, configuration_option_number_57: Option<u64>, configuration_option_number_58: Option<u64>, configuration_option_number_59: Option<u64>, configuration_option_number_60: Option<u64>, configuration_option_number_61: Option<u64>, configuration_option_number_62: Option<u64>, configuration_option_number_63: Option<u64>, schema_version: u32 });
